@@ -20,15 +20,18 @@ RULE = ("Lists of 1..N sequences of length 0..M over ACGT, ACTG, ACUG (bit-packe
         "Oracle, per row, in plain Python: k-mer code = little-endian base-|A| number of the window's letters; KmerEncoding.to_string(code) and "
         "KmerEncoding.encode(text) are inverse; minimizer = minimum code in each window; match_string = [row[i:i+len(p)] == p]; motif score = sum "
         "of matrix entries (1e-9, -inf exact); count_kmers = Counter of window texts, over all rows and per row (axis=-1, and count_encoded of the k-mers). Every row yields exactly max(len(row) - w + 1, 0) values. "
-        "Non-trivial: >= 2 rows of which one is shorter than w and one at least w.")
+        "Large inputs (hundreds of thousands to millions of letters in rows of 2000..6000 letters with rows of length 0, w-1, w, w+1 in between), where an "
+        "implementation may work in blocks: the same definitions computed with NumPy one row at a time, for k-mers, minimizers, match_string and k-mer counts. "
+        "Non-trivial: >= 2 rows of which one is shorter than w and one at least w, or a large input.")
 ASSUMPTIONS = [
     "The total number of letters is at least the window length (the sliding window view needs it); rows may individually be shorter.",
     "count_kmers is generated with k <= 5 (its label table has |A|^k entries).",
 ]
 REQUIRED_CLASSES = ["w=1", "w-equals-row-length", "w-one-more-than-row", "row-shorter-than-w", "empty-row", "bit-packed", "generic", "k>=16",
-                    "minimizers", "match_string", "motif", "count", "view-input", "call-history", "history-same-size-other-alphabet", "motif-alphabet-times-window>256"]
-BOUNDS = {"quick": "exhaustive core (<=3 rows, length <=4, two letters, w<=5, all functions); 400 sampled per function family",
-          "thorough": "exhaustive core; 20000 sampled"}
+                    "minimizers", "match_string", "motif", "count", "view-input", "call-history", "history-same-size-other-alphabet", "motif-alphabet-times-window>256",
+                    "large-input"]
+BOUNDS = {"quick": "exhaustive core (<=3 rows, length <=4, two letters, w<=5, all functions); 400 sampled per function family; 24 inputs of 70 000 to 3 000 000 letters",
+          "thorough": "exhaustive core; 20000 sampled; 42 inputs of 70 000 to 5 000 000 letters"}
 BUDGET_S = {"quick": 300, "thorough": 1500}
 
 ALPHA = {"ACGT": "ACGT", "ACTG": "ACTG", "ACUG": "ACUG", "ACGTn": "ACGTN", "amino": "ACDEFGHIKLMNPQRSTVWY*"}
@@ -63,6 +66,8 @@ def classify(case):
                 if a["fn"] == b["fn"] and a.get("k") == b.get("k") and a["alpha"] != b["alpha"] and len(ALPHA[a["alpha"]]) == len(ALPHA[b["alpha"]]):
                     cl.append("history-same-size-other-alphabet")
         return len(steps) >= 2, sorted(set(cl))
+    if case["fn"] == "big":
+        return True, ["large-input", "large-input-" + case["what"]]
     rows, w = case["rows"], case["w"]
     cl = [case["fn"]]
     if case.get("view"):
@@ -120,6 +125,11 @@ def check(case, stats=None):
                 detail["earlier_calls"] = [{"fn": s_["fn"], "alpha": s_.get("alpha"), "k": s_.get("k"), "rows": s_["rows"]} for s_ in case["steps"][:i]]
                 return [Failure(f.bucket + ("-after-earlier-calls" if i else ""), detail)]
         return []
+    if case["fn"] == "big":
+        try:
+            return check_big(case)
+        except Exception as e:  # noqa
+            return [Failure(f"C13:raised:big-{case['what']}:{type(e).__name__}:{_where(e)}", {"error": repr(e)[:300], "case": case})]
     fn, rows, w = case["fn"], case["rows"], case["w"]
     try:
         if fn in ("kmers", "minimizers", "count"):
@@ -207,6 +217,84 @@ def check(case, stats=None):
     except Exception as e:  # noqa
         return [Failure(f"C13:raised:{fn}:{type(e).__name__}:{_where(e)}", {"error": repr(e)[:300], "case": {k: v for k, v in case.items() if k != 'probs'}})]
     return []
+
+
+def big_rows(case):
+    """The rows of a large case, a function of the case alone: rows of a few thousand letters, the boundary lengths 0, w-1, w, w+1 in between
+    and a short last row, `n_letters` letters in all over ACGT (as arrays of codes 0..3)."""
+    import numpy as np
+    rs = np.random.RandomState(case["seed"])
+    w = case["w"]
+    lengths, total = [], 0
+    while total < case["n_letters"]:
+        n = int(rs.randint(2000, 6000))
+        lengths.append(n)
+        total += n
+        if len(lengths) % 7 == 3:
+            lengths.extend([0, w - 1, w, w + 1])
+            total += 3 * w
+    lengths.append(3)
+    return [rs.randint(0, 4, size=n).astype(np.int64) for n in lengths]
+
+
+def check_big(case):
+    """Inputs of several hundred thousand to millions of letters (where an implementation may switch to working in blocks): the same per-row
+    definitions, computed with NumPy one row at a time."""
+    import numpy as np
+    import bionumpy as bnp
+    from numpy.lib.stride_tricks import sliding_window_view
+    what, k, w = case["what"], case["k"], case["w"]
+    rows = big_rows(case)
+    letters = np.array(list("ACGT"))
+    texts = ["".join(letters[r]) for r in rows]
+    seqs = bnp.as_encoded_array(texts, bnp.DNAEncoding)
+    weights = 4 ** np.arange(k, dtype=np.int64)
+
+    def hashes(r):
+        return sliding_window_view(r, k) @ weights if len(r) >= k else np.zeros(0, dtype=np.int64)
+
+    if what == "kmers":
+        want = [hashes(r) for r in rows]
+        res = bnp.sequence.get_kmers(seqs, k)
+    elif what == "minimizers":
+        want = [sliding_window_view(hashes(r), w - k + 1).min(axis=-1) if len(r) >= w else np.zeros(0, dtype=np.int64) for r in rows]
+        res = bnp.sequence.get_minimizers(seqs, k, w)
+    elif what == "match_string":
+        pat = np.array([int(c) for c in case["pattern"]], dtype=np.int64)
+        want = [(sliding_window_view(r, len(pat)) == pat).all(axis=-1) if len(r) >= len(pat) else np.zeros(0, dtype=bool) for r in rows]
+        res = bnp.match_string(seqs, "".join(letters[pat]))
+    elif what == "count":
+        allh = np.concatenate([hashes(r) for r in rows])
+        want_counts = np.bincount(allh, minlength=4 ** k)
+        res = bnp.sequence.count_kmers(seqs, k)
+        got = np.asarray(res.counts)
+        if got.shape != want_counts.shape or not np.array_equal(got, want_counts):
+            bad = int(np.flatnonzero(got != want_counts)[0]) if got.shape == want_counts.shape else None
+            return [Failure("C13:count_kmers:large-input", {"case": case, "kmer": bad, "expected": int(want_counts[bad]) if bad is not None else None,
+                                                             "actual": int(got[bad]) if bad is not None else repr(got.shape), "n_windows": int(len(allh))})]
+        return []
+    else:
+        raise ValueError(what)
+    got_lengths = np.asarray(res.lengths).tolist() if hasattr(res, "lengths") else None
+    if got_lengths != [len(x) for x in want]:
+        bad = next((i for i, (a, b) in enumerate(zip(got_lengths or [], [len(x) for x in want])) if a != b), None)
+        return [Failure(f"C13:{what}:large-input-row-lengths", {"case": case, "row": bad, "n_rows": len(want), "n_rows_returned": len(got_lengths or [])})]
+    flat = res.ravel()
+    flat = np.asarray(flat.raw() if hasattr(flat, "raw") else flat)
+    want_flat = np.concatenate(want)
+    if not np.array_equal(flat, want_flat):
+        pos = int(np.flatnonzero(flat != want_flat)[0])
+        starts = np.cumsum([0] + [len(x) for x in want])
+        row = int(np.searchsorted(starts, pos, side="right") - 1)
+        return [Failure(f"C13:{what}:large-input", {"case": case, "row": row, "window": pos - int(starts[row]), "row_length": int(len(rows[row])),
+                                                     "expected": int(want_flat[pos]), "actual": int(flat[pos]), "n_wrong": int((flat != want_flat).sum()),
+                                                     "n_windows": int(len(want_flat))})]
+    return []
+
+
+def task_big(stats, known_open, cases):
+    import sys
+    core.run_enumeration(sys.modules[__name__], iter(cases), stats, known_open, name="large-inputs")
 
 
 # ---------------------------------------------------------------------------------------
@@ -329,4 +417,15 @@ def tasks(tier, seed):
             out.append(("task_sampled", dict(fn=fn, n=n, seed=seed * 1000 + i * 10 + j, max_rows=5 if tier == "quick" else 10, max_len=12 if tier == "quick" else 60)))
     for j in range(2 if tier == "quick" else 8):
         out.append(("task_history", dict(n=n, seed=seed * 1000 + 700 + j, max_rows=3, max_len=8)))
+    # large inputs: one task per case so that they run side by side
+    sizes = [70_000, 300_000, 1_200_000, 3_000_000] if tier == "quick" else [70_000, 150_000, 300_000, 600_000, 1_200_000, 2_500_000, 5_000_000]
+    for j, n_letters in enumerate(sizes):
+        cases = []
+        for what, k, w in (("minimizers", 4, 8), ("minimizers", 2, 4), ("minimizers", 3, 3), ("kmers", 5, 5), ("match_string", 3, 3), ("count", 3, 3)):
+            c = {"fn": "big", "what": what, "k": k, "w": w, "n_letters": n_letters, "seed": seed * 10 + j}
+            if what == "match_string":
+                c["pattern"] = "012"
+            cases.append(c)
+        out.append(("task_big", dict(cases=cases[:3])))
+        out.append(("task_big", dict(cases=cases[3:])))
     return out
